@@ -197,16 +197,12 @@ Proof.
   - apply c15_delete_values.
 Qed.
 
-Lemma c15_poly_split_aligned n am pieces values :
-  c15_aligned values (c15_poly C15Split n am None pieces values).
+Lemma c15_poly_split_aligned n am nan pieces values :
+  c15_aligned values (c15_poly C15Split n am nan pieces values).
 Proof. reflexivity. Qed.
 
-Lemma c15_poly_ignore_aligned am pieces values :
-  c15_aligned values (c15_poly C15Ignore (length values) am None pieces values).
-Proof. unfold c15_aligned. simpl. symmetry. apply c15_map_nth_seq. Qed.
-
-Lemma c15_poly_fixed_ignore_aligned am nan pieces values :
-  c15_aligned values (c15_poly_fixed C15Ignore (length values) am nan pieces values).
+Lemma c15_poly_ignore_aligned am nan pieces values :
+  c15_aligned values (c15_poly C15Ignore (length values) am nan pieces values).
 Proof. unfold c15_aligned. simpl. symmetry. apply c15_map_nth_seq. Qed.
 
 (* the split table lists every face as often as it has pieces, faces in increasing order *)
@@ -240,31 +236,26 @@ Lemma c15_delete_from_le {A} idx : forall (l : list A) k, length (c15_delete_fro
 Proof. induction l as [|x l IH]; intros k; simpl; auto. destruct (c15_mem k idx); simpl; specialize (IH (S k)); lia. Qed.
 
 (* GeoDataFrame pipelines: rows and data are re-indexed with the same tables in every branch *)
-Lemma c15_gdf_aligned fixed per am nan values :
+Lemma c15_gdf_aligned per am nan values :
   (match nan with Some fl => length fl = length values | None => True end) ->
-  c15_aligned values (c15_gdf_gen fixed per (length values) am nan values).
+  c15_aligned values (c15_gdf per (length values) am nan values).
 Proof.
-  intros Hl. unfold c15_aligned, c15_gdf_gen.
+  intros Hl. unfold c15_aligned, c15_gdf.
   assert (W : forall fl, length fl = length values ->
-            forall i, In i ((if fixed then c15_where_nonan else c15_where2) (c15_delete am fl)) ->
+            forall i, In i (c15_where_nonan (c15_delete am fl)) ->
             i < length (c15_delete am (seq 0 (length values)))).
   { intros fl Hfl i Hi.
     rewrite <- (c15_delete_length am fl (seq 0 (length values))) by (rewrite seq_length; auto).
-    destruct fixed.
-    - apply c15_where_lt in Hi. rewrite map_length in Hi. assumption.
-    - unfold c15_where2 in Hi. apply in_flat_map in Hi. destruct Hi as ([j p] & Hin & Hi).
-      apply in_combine_l in Hin. apply in_seq in Hin. simpl in Hi.
-      apply in_app_or in Hi. destruct Hi as [Hi|Hi];
-        [destruct (negb (fst p))|destruct (negb (snd p))]; simpl in Hi; try tauto; destruct Hi as [<-|[]]; lia. }
+    apply c15_where_lt in Hi. rewrite map_length in Hi. assumption. }
   assert (W2 : forall fl, length fl = length values ->
-            forall i, In i ((if fixed then c15_where_nonan else c15_where2) (c15_delete am fl)) -> i < length values).
+            forall i, In i (c15_where_nonan (c15_delete am fl)) -> i < length values).
   { intros fl Hfl i Hi. specialize (W fl Hfl i Hi).
     pose proof (c15_delete_from_le am (seq 0 (length values)) 0) as L. rewrite seq_length in L.
     unfold c15_delete in W. lia. }
   assert (NE : forall fl, length fl = length values ->
-            c15_gather 0%Z values ((if fixed then c15_where_nonan else c15_where2) (c15_delete am fl)) =
+            c15_gather 0%Z values (c15_where_nonan (c15_delete am fl)) =
             map (fun f => nth f values 0%Z)
-                (c15_gather 0 (seq 0 (length values)) ((if fixed then c15_where_nonan else c15_where2) (c15_delete am fl)))).
+                (c15_gather 0 (seq 0 (length values)) (c15_where_nonan (c15_delete am fl)))).
   { intros fl Hfl. unfold c15_gather. rewrite map_map. apply map_ext_in. intros i Hi.
     rewrite seq_nth by (eapply W2; eauto). reflexivity. }
   destruct per; destruct nan as [fl|]; simpl.
@@ -276,7 +267,7 @@ Proof.
   - symmetry. apply c15_map_nth_seq.
 Qed.
 
-(* one-to-one: the repaired NaN table never lists a face twice *)
+(* one-to-one: the NaN table never lists a face twice *)
 Lemma c15_NoDup_map_nth (kept : list nat) (nn : list nat) :
   NoDup kept -> NoDup nn -> (forall i, In i nn -> i < length kept) ->
   NoDup (c15_gather 0 kept nn).
@@ -288,11 +279,11 @@ Proof.
   - apply IH; auto. intros; apply Hr; simpl; auto.
 Qed.
 
-Lemma c15_gdf_fixed_NoDup per n am nan values :
+Lemma c15_gdf_NoDup per n am nan values :
   (match nan with Some fl => length fl = n | None => True end) ->
-  NoDup (o_faces (c15_gdf_fixed per n am nan values)).
+  NoDup (o_faces (c15_gdf per n am nan values)).
 Proof.
-  intros Hl. unfold c15_gdf_fixed, c15_gdf_gen.
+  intros Hl. unfold c15_gdf.
   assert (K : NoDup (c15_delete am (seq 0 n))) by (rewrite c15_delete_seq; apply c15_filter_seq_NoDup).
   destruct per; destruct nan as [fl|]; simpl; try assumption; try apply seq_NoDup.
   - apply c15_NoDup_map_nth; auto; [apply c15_where_NoDup|].
@@ -307,22 +298,6 @@ Proof.
 Qed.
 
 Local Open Scope Z_scope.
-
-(* the code as written: with a projection every NaN-free face is listed twice in the frame *)
-Lemma c15_gdf_projection_duplicates_refuted : exists per n am nan values,
-  ~ NoDup (o_faces (c15_gdf per n am nan values)).
-Proof.
-  exists C15Exclude, 2%nat, [], (Some [(false, false); (false, false)]), [10; 20].
-  vm_compute. intros H. inversion H as [|? ? Hn _]. apply Hn. left; reflexivity.
-Qed.
-
-(* the code as written: ignore + projection attaches values to the wrong polygons *)
-Lemma c15_poly_ignore_projection_refuted : exists n am nan pieces values,
-  length values = n /\ ~ c15_aligned values (c15_poly C15Ignore n am nan pieces values).
-Proof.
-  exists 3%nat, [0%nat], (Some [(false, false); (false, false); (false, false)]), [1%nat; 1%nat; 1%nat], [10; 20; 30].
-  split; [reflexivity|]. unfold c15_aligned. vm_compute. discriminate.
-Qed.
 
 (* ------------------------------------------------------------------------- *)
 (* D. cache machines                                                           *)
@@ -613,35 +588,29 @@ Lemma c15_noalias_poly : forall hist st objs, c15_objs_inv st objs ->
   c15_obj_get i (snd (c15_steps c15_sp_poly true false (st, objs) hist)) = Some c.
 Proof. apply c15_noalias_thm. right. left. reflexivity. Qed.
 
-(* GeoDataFrame with the repaired UxDataArray.to_geodataframe (column written into a copy) *)
-Lemma c15_noalias_gdf_fixed : forall hist st objs, c15_objs_inv st objs ->
+(* GeoDataFrame: UxDataArray.to_geodataframe writes its column into a copy of the frame it
+   received (flags regenerated from the source) *)
+Lemma c15_noalias_gdf : forall hist st objs, c15_objs_inv st objs ->
   forall i c, c15_obj_get i objs = Some c ->
-  c15_obj_get i (snd (c15_steps c15_sp_gdf true true (st, objs) hist)) = Some c.
+  c15_obj_get i (snd (c15_steps c15_sp_gdf c15_da_gdf_writes_column c15_da_gdf_copies (st, objs) hist)) = Some c.
 Proof. apply c15_noalias_thm. right. right. reflexivity. Qed.
 
 Local Open Scope Z_scope.
 
-(* GeoDataFrame as written: the frame handed out by Grid.to_geodataframe is the cached one and
-   UxDataArray.to_geodataframe writes its data column into it *)
-Lemma c15_noalias_gdf_refuted : exists hist,
+(* a method that wrote the column into the frame it received (cached, handed out) would alter
+   earlier results: the generic machine with writes = true, copies = false *)
+Lemma c15_noalias_nocopy_refuted : exists hist,
   let '(st1, objs1, id) := c15_step c15_sp_gdf true false (c15_init, []) (None, c15_mk 1 0 true) in
   c15_obj_get id (snd (c15_steps c15_sp_gdf true false (st1, objs1) hist)) <> c15_obj_get id objs1.
 Proof. exists [(Some 5, c15_mk 1 0 true)]. vm_compute. discriminate. Qed.
 
-(* and the result of a data conversion depends on earlier conversions of other variables *)
-Lemma c15_gdf_columns_refuted :
-  let '(s1, o1, id1) := c15_step c15_sp_gdf true false (c15_init, []) (Some 5, c15_mk 1 0 true) in
-  let '(s2, o2, id2) := c15_step c15_sp_gdf true false (s1, o1) (Some 6, c15_mk 1 0 true) in
-  let '(s3, o3, id3) := c15_step c15_sp_gdf true false (c15_init, []) (Some 6, c15_mk 1 0 true) in
-  c15_obj_get id2 o2 <> c15_obj_get id3 o3.
-Proof. vm_compute. discriminate. Qed.
-
-(* with the repaired method the frame returned for a variable carries that variable's column only *)
-Lemma c15_gdf_columns_fixed : forall st objs var a,
-  let '(st', objs', id) := c15_step c15_sp_gdf true true (st, objs) (Some var, a) in
+(* the frame returned for a variable carries that variable's column only, whatever happened before *)
+Lemma c15_gdf_columns : forall st objs var a,
+  let '(st', objs', id) := c15_step c15_sp_gdf c15_da_gdf_writes_column c15_da_gdf_copies (st, objs) (Some var, a) in
   exists built, c15_obj_get id objs' = Some (built, [var]).
 Proof.
-  intros st objs var a. unfold c15_step. cbn [fst snd].
+  intros st objs var a. change c15_da_gdf_copies with true. change c15_da_gdf_writes_column with true.
+  unfold c15_step. cbn [fst snd].
   destruct (c15_call c15_sp_gdf st a) as [[built id] st'].
   exists built. simpl. rewrite Nat.eqb_refl. reflexivity.
 Qed.
@@ -661,11 +630,11 @@ Example c15_pipeline_nonvacuous :
   o_data (c15_poly C15Exclude 4 [1%nat] (Some [(false, false); (false, false); (true, true); (false, false)]) [] [10; 20; 30; 40]) = [10; 40] /\
   o_faces (c15_poly C15Split 3 [1%nat] None [1%nat; 2%nat; 1%nat] [10; 20; 30]) = [0%nat; 1%nat; 1%nat; 2%nat] /\
   o_data (c15_poly C15Split 3 [1%nat] None [1%nat; 2%nat; 1%nat] [10; 20; 30]) = [10; 20; 20; 30] /\
-  o_faces (c15_gdf C15Exclude 3 [0%nat] (Some [(false, false); (false, true); (false, false)]) [10; 20; 30]) = [1%nat; 2%nat; 2%nat].
+  o_faces (c15_gdf C15Exclude 3 [0%nat] (Some [(false, false); (false, true); (false, false)]) [10; 20; 30]) = [2%nat].
 Proof. vm_compute. repeat split; reflexivity. Qed.
 
 Example c15_cache_nonvacuous :
   fst (fst (c15_call c15_sp_line (c15_run c15_sp_line c15_init [c15_mk 1 7 true]) (c15_mk 1 0 true))) = [1; 0] /\
-  snd (fst (c15_call c15_sp_line (c15_run c15_sp_line c15_init [c15_mk 1 7 true]) (c15_mk 1 7 true))) = 0%nat /\
+  snd (fst (c15_call c15_sp_line (c15_run c15_sp_line c15_init [c15_mk 1 7 true]) (c15_mk 1 7 true))) = 2%nat /\
   snd (fst (c15_call c15_sp_poly (c15_run c15_sp_poly c15_init [c15_mk 1 7 true]) (c15_mk 1 7 true))) = 2%nat.
 Proof. vm_compute. repeat split; reflexivity. Qed.
